@@ -89,7 +89,10 @@ func cpuSeconds() float64 {
 
 // ---------------------------------------------------------------- worker
 
-const cpuBudgetPerCase = 5.0
+// cpuBudgetPerCase: CPU seconds one case (or one announced input) may burn. For C13 this is the
+// verdict-carrying budget (5 s where milliseconds are normal); for the other properties it is
+// only a safety net against a spinning case and is set generously.
+var cpuBudgetPerCase = 5.0
 
 // currentInputPath: properties that feed hostile inputs write each input here
 // before handing it to the code under test, so that a dead worker's last input is known.
@@ -115,6 +118,9 @@ func endInput() { inputStartWall.Store(time.Time{}) }
 func workerMain(args []string) {
 	// args: prop tier seed shard nshards from outfile progressfile
 	prop := inprocProps[args[0]]
+	if args[0] != "C13" {
+		cpuBudgetPerCase = 120.0
+	}
 	tier := args[1]
 	seed, _ := strconv.ParseInt(args[2], 10, 64)
 	shard, _ := strconv.Atoi(args[3])
